@@ -147,6 +147,11 @@ def planar(ctx):
         pil = it.explore(lambda: method(cls, "inverse_and_log_det")(o2, y, None))
         pil = single(pil, ctx, "C01/_UnconditionalPlanar.inverse_and_log_det/struct/straight_line", props, Q + ".inverse_and_log_det")
         if pil is not None:
+            pinv = single(it.explore(lambda: method(cls, "inverse")(o2, y, None)), ctx, "C01/_UnconditionalPlanar.inverse/struct/straight_line", props, Q + ".inverse")
+            if pinv is not None:
+                okv = isinstance(pinv.value, LV) and isinstance(pil.value, tuple) and isinstance(pil.value[0], LV)
+                ctx.oblige("C01/_UnconditionalPlanar/same_inv", vec_eq(pinv.value, pil.value[0]) if okv else z3.BoolVal(False), pinv.cond + pil.cond + inv, props, fn=Q + ".inverse", replay=rp,
+                           note="the plain inverse returns the point of inverse_and_log_det")
             xb, ldi = pil.value
             a = leaky(z, s)
             # y = x + a*uh  =>  w.y = w.x + a * w.uh ; coefficients of y in the basis {x, uh}
